@@ -46,6 +46,11 @@ def _index_sets(maxk, dsize, rsize):
         for d in itertools.permutations(range(dsize), k):
             for r in itertools.permutations(range(rsize), k):
                 out.append((list(d), list(r), rsize, dsize))
+                # both index sets with implied sizes (range / domain size left to the slicer)
+                out.append((list(d), list(r), None, dsize))
+                if (sum(d) + 2 * sum(r) + k) % 3 == 0:
+                    out.append((list(d), list(r), None, None))
+                    out.append((list(d), list(r), rsize, None))
     return out
 
 
